@@ -350,6 +350,7 @@ LEXER_SAMPLES = [
     b"\n\n  \xc3\xa9\xc3\xa9 keep",
     b'x text:\nhello\n.\n;\nfoo {\n{',
     b'"a"\xc3\xa9',
+    b'if header "a\nb\r\nc" [\n"x\n", "y"] foo\n$',
 ]
 _WS = b" \t\r\n\x0b\x0c"
 
@@ -441,10 +442,13 @@ def lexer_eval(ctx, R):
 
     n = 0
     moments = []  # (text, lexer state, token value or None for a lexical error, offset of the token) on the paths without replay
-    for text in LEXER_SAMPLES:
+    work = [(t, base, "") for t in LEXER_SAMPLES]
+    finals = {}
+    reuse_added = False
+    for text, base_env, label in work:
         it = fd.Interp(scan.node, L.name, oracle, resolve=resolve, loop_unroll=4 * len(text) + 8, max_paths=200)
         it.yield_hook = hook
-        env = dict(base)
+        env = dict(base_env)
         env[scan.params[1]] = fd.Const(text)
         try:
             paths = it.run(env)
@@ -482,8 +486,8 @@ def lexer_eval(ctx, R):
                 n += 1
                 if got != want:
                     rw = " (after the parser asked for `{` once more)" if any(x[0] == "rewind" for x in evs[:i]) else ""
-                    return ("bad", text, "while the token %r (offset %d) is handled%s, curlineno() / curcolno() give %r; the token starts at line %d, "
-                                         "column %d" % (v[1], cur, rw, got, want[0], want[1]))
+                    return ("bad", text, "%swhile the token %r (offset %d) is handled%s, curlineno() / curcolno() give %r; the token starts at line %d, "
+                                         "column %d" % (label, v[1], cur, rw, got, want[0], want[1]))
                 if not any(x[0] == "rewind" for x in evs):
                     moments.append((text, ev[2], v[1], cur))
                 last = cur
@@ -500,13 +504,36 @@ def lexer_eval(ctx, R):
                 if not any(x[0] == "rewind" for x in evs):
                     moments.append((text, snap, None, cur))
                 if got != want:
-                    return ("bad", text, "where the byte sequence %r (offset %d) is rejected as no token, curlineno() / curcolno() give %r; it starts at "
-                                         "line %d, column %d" % (text[cur:cur + 8], cur, got, want[0], want[1]))
+                    return ("bad", text, "%swhere the byte sequence %r (offset %d) is rejected as no token, curlineno() / curcolno() give %r; it starts at "
+                                         "line %d, column %d" % (label, text[cur:cur + 8], cur, got, want[0], want[1]))
             elif p.kind == "return":
                 while cur < len(text) and text[cur] in _WS:
                     cur += 1
                 if cur != len(text):
                     return ("bad", text, "the lexer stops at offset %d of %d without an error" % (cur, len(text)))
+            if not any(x[0] == "rewind" for x in evs) and not label:
+                finals[text] = {k: x for k, x in p.env.items() if k.startswith(scan.params[0] + ".")}
+        if not reuse_added and text == LEXER_SAMPLES[-1] and not label:
+            # the same lexer object used again (a Parser is reusable): after a text was scanned and its error position asked for,
+            # the positions reported for the next text must be those of the next text
+            reuse_added = True
+            for a_text, b_text in ((LEXER_SAMPLES[3], LEXER_SAMPLES[5]), (LEXER_SAMPLES[4], LEXER_SAMPLES[3]), (LEXER_SAMPLES[6], LEXER_SAMPLES[1])):
+                st_env = finals.get(a_text)
+                if st_env is None:
+                    continue
+                ok_ = True
+                for f_ in (ln, col):
+                    try:
+                        r_ = fd.Interp(f_.node, L.name, oracle, resolve=resolve, loop_unroll=80).run(dict(st_env))
+                    except fd.TooManyPaths:
+                        ok_ = False
+                        break
+                    if len(r_) != 1:
+                        ok_ = False
+                        break
+                    st_env = {k: x for k, x in r_[0].env.items() if k.startswith(f_.params[0] + ".")}
+                if ok_:
+                    work.append((b_text, st_env, "on a lexer that scanned %r before: " % a_text))
     return ("ok", n, moments, oracle, resolve)
 
 
